@@ -301,15 +301,25 @@ pub fn write_json(path: &Path, v: &Value) -> Result<(), String> {
 
 /// Generic delta debugging over a list: returns a (locally) minimal sublist for which `fails`
 /// still holds. `fails` is only called on sublists that keep relative order.
+/// Set by a minimiser whose budget is used up: every ddmin in progress returns what it has (building
+/// candidates it may not test any more costs O(n^2) copies on a long list).
+pub static DDMIN_STOP: std::sync::atomic::AtomicBool = std::sync::atomic::AtomicBool::new(false);
+
 pub fn ddmin<T: Clone>(items: &[T], mut fails: impl FnMut(&[T]) -> bool) -> Vec<T> {
     let mut cur: Vec<T> = items.to_vec();
     let mut n = 2usize;
     while cur.len() >= 2 {
+        if DDMIN_STOP.load(std::sync::atomic::Ordering::SeqCst) {
+            return cur;
+        }
         let chunk = (cur.len() + n - 1) / n;
         let mut reduced = false;
         let mut start = 0;
         while start < cur.len() {
             let end = (start + chunk).min(cur.len());
+            if DDMIN_STOP.load(std::sync::atomic::Ordering::SeqCst) {
+                return cur;
+            }
             let candidate: Vec<T> = cur[..start].iter().chain(cur[end..].iter()).cloned().collect();
             if !candidate.is_empty() && fails(&candidate) {
                 cur = candidate;
